@@ -27,6 +27,7 @@ def requests ():
   a(("features", lambda x: W.features_request(x), ("reply", W.FEATURES_REPLY)))
   a(("get-config", lambda x: W.get_config_request(x), ("reply", W.GET_CONFIG_REPLY)))
   a(("set-config-64", lambda x: W.set_config(x, 0, 64), ("none",)))
+  a(("set-config-0", lambda x: W.set_config(x, 0, 0), ("none",)))
   a(("set-config-max", lambda x: W.set_config(x, 1, 0xffff), ("none",)))
   a(("barrier", lambda x: W.barrier_request(x), ("reply", W.BARRIER_REPLY)))
   a(("stats-desc", lambda x: W.stats_request(x, W.OFPST_DESC), ("stats", W.OFPST_DESC)))
@@ -38,6 +39,16 @@ def requests ():
   a(("stats-port-absent", lambda x: W.stats_request(x, W.OFPST_PORT, W.port_stats_body(99)), ("answer",)))
   a(("stats-queue-all", lambda x: W.stats_request(x, W.OFPST_QUEUE, W.queue_stats_body(W.OFPP_ALL, W.OFPQ_ALL)), ("stats", W.OFPST_QUEUE)))
   a(("stats-queue-one", lambda x: W.stats_request(x, W.OFPST_QUEUE, W.queue_stats_body(1, 5)), ("error", W.OFPET_QUEUE_OP_FAILED, W.OFPQOFC_BAD_QUEUE)))
+  a(("stats-queue-bad-port", lambda x: W.stats_request(x, W.OFPST_QUEUE, W.queue_stats_body(77, W.OFPQ_ALL)), ("answer",)))
+  a(("stats-queue-allports-one", lambda x: W.stats_request(x, W.OFPST_QUEUE, W.queue_stats_body(W.OFPP_ALL, 5)), ("error", W.OFPET_QUEUE_OP_FAILED, W.OFPQOFC_BAD_QUEUE)))
+  a(("stats-flow-table1", lambda x: W.stats_request(x, W.OFPST_FLOW, W.flow_stats_body(table_id=1)), ("stats", W.OFPST_FLOW)))
+  a(("stats-flow-in2", lambda x: W.stats_request(x, W.OFPST_FLOW, W.flow_stats_body(W.match_fields(in_port=2))), ("stats", W.OFPST_FLOW)))
+  a(("stats-flow-out2", lambda x: W.stats_request(x, W.OFPST_FLOW, W.flow_stats_body(out_port=2)), ("stats", W.OFPST_FLOW)))
+  a(("stats-aggregate-table1", lambda x: W.stats_request(x, W.OFPST_AGGREGATE, W.flow_stats_body(table_id=1)), ("stats", W.OFPST_AGGREGATE)))
+  a(("queue-get-config-absent", lambda x: W.queue_get_config_request(x, 99), ("answer",)))
+  a(("echo-big", lambda x: W.echo_request(x, bytes(range(256)) * 5), ("reply", W.ECHO_REPLY)))
+  a(("flow-modify", lambda x: W.flow_mod(x, W.match_fields(in_port=1), W.OFPFC_MODIFY, W.a_output(3)), ("none",)))
+  a(("flow-delete-strict", lambda x: W.flow_mod(x, W.match_fields(in_port=2), W.OFPFC_DELETE_STRICT), ("none",)))
   a(("stats-vendor", lambda x: W.stats_request(x, W.OFPST_VENDOR, struct.pack("!L", 0x2320)), ("error", W.OFPET_BAD_REQUEST, None)))
   a(("stats-unknown", lambda x: W.stats_request(x, 9), ("error", W.OFPET_BAD_REQUEST, W.OFPBRC_BAD_STAT)))
   a(("queue-get-config", lambda x: W.queue_get_config_request(x, 1), ("reply", W.QUEUE_GET_CONFIG_REPLY)))
@@ -65,11 +76,15 @@ class Model (object):
   def __init__ (self):
     self.miss_send_len = 128; self.flags = 0
     self.flows = set()
+    self.out2 = False           # does flow "in1" currently output to port 2?
     self.tx = {1: 0, 2: 0, 3: 0, 4: 0}
   def apply (self, name):
     if name == "set-config-64": self.miss_send_len, self.flags = 64, 0
+    elif name == "set-config-0": self.miss_send_len, self.flags = 0, 0
+    elif name == "flow-modify": self.flows.add("in1"); self.out2 = False
+    elif name == "flow-delete-strict": self.flows.discard("in2")
     elif name == "set-config-max": self.miss_send_len, self.flags = 0xffff, 1
-    elif name == "flow-add": self.flows.add("in1")
+    elif name == "flow-add": self.flows.add("in1"); self.out2 = True
     elif name == "flow-add-other": self.flows.add("in2")
     elif name == "flow-delete-all": self.flows.clear()
     elif name == "packet-out": self.tx[2] += 1
@@ -156,7 +171,7 @@ def check_history (names, reqs, rep, stack_factory, batch=False):
 def check_body (n, r, raw, model, st):
   bad = []
   def b (clause, what): bad.append(("%s:%s:%s" % (PID, n, clause), what))
-  if n.startswith("echo"):
+  if n.startswith("echo-"):
     if r["body"] != raw[8:]: b("echo-body", "echo reply body differs from the request body")
   elif n == "features":
     if r["dpid"] != 1 or sorted(p["port_no"] for p in r["ports"]) != [1, 2, 3, 4] or r["n_tables"] != 1:
@@ -169,6 +184,14 @@ def check_body (n, r, raw, model, st):
   elif n == "stats-flow":
     if not r["wellformed"] or len(r["flows"]) != len(model.flows):
       b("stats-body", "flow stats lists %d flows, %d installed" % (len(r.get("flows", [])), len(model.flows)))
+  elif n in ("stats-flow-table1", "stats-flow-in2", "stats-flow-out2"):
+    want = {"stats-flow-table1": 0, "stats-flow-in2": int("in2" in model.flows),
+            "stats-flow-out2": int("in1" in model.flows and model.out2)}[n]
+    if not r["wellformed"] or len(r["flows"]) != want:
+      b("stats-body", "%s lists %d flows, expected %d" % (n, len(r.get("flows", [])), want))
+  elif n == "stats-aggregate-table1":
+    if r.get("flow_count") != 0:
+      b("stats-body", "aggregate stats for table 1 flow_count %r, expected 0" % (r.get("flow_count"),))
   elif n == "stats-aggregate":
     if r.get("flow_count") != len(model.flows):
       b("stats-body", "aggregate stats flow_count %r, %d installed" % (r.get("flow_count"), len(model.flows)))
